@@ -533,6 +533,8 @@ class Entry:
     """kind: comp (key, value, target, iter) | pair (key, value) | whole (expr: every item of this mapping) |
     state (the field itself) | empty"""
 
+    ifs = ()
+
     def __init__(self, kind, key=None, value=None, target=None, it=None, expr=None, node=None):
         self.kind, self.key, self.value, self.target, self.it, self.expr, self.node = kind, key, value, target, it, expr, node
 
@@ -553,10 +555,12 @@ def dict_entries(e: ast.AST, field: str) -> Optional[List[Entry]]:
                 out.append(Entry('pair', key=k, value=v, node=e))
         return out or [Entry('empty', node=e)]
     if isinstance(e, ast.DictComp):
-        if len(e.generators) != 1 or e.generators[0].ifs:
+        if len(e.generators) != 1:
             return None
         g = e.generators[0]
-        return [Entry('comp', key=e.key, value=e.value, target=g.target, it=g.iter, node=e)]
+        en = Entry('comp', key=e.key, value=e.value, target=g.target, it=g.iter, node=e)
+        en.ifs = list(g.ifs)            # a filter drops entries: the consumers decide whether that is legitimate
+        return [en]
     if isinstance(e, ast.BinOp) and isinstance(e.op, ast.BitOr):
         a, b = dict_entries(e.left, field), dict_entries(e.right, field)
         if a is None or b is None:
